@@ -9,8 +9,7 @@ helper structure, local names, cached values, loop forms nor branch shapes matte
 """
 from ..core import AnalysisBroken, canon, strip, last_member, norm_cond, forward, relpath
 from .. import generic
-from ..analyses import holding, path_to, exits_of, callback_kind, stale_after_callback
-from .c11 import null_rule
+from ..analyses import holding, path_to, exits_of, callback_kind, USER_OBJECT_RECORDS
 from . import h20
 from .h20 import INST, WATCH, IN_IGNORED, IN_ONESHOT  # noqa: F401  (re-exported constants)
 
@@ -32,7 +31,7 @@ def run(ctx):
     ctx.section(unregister)
     ctx.section(membership)
     ctx.section(init_complete)
-    ctx.section(lambda c: null_rule(c, 'R-C20g', ('iv_inotify.c',)))
+    ctx.section(null_contradiction)
 
 
 def _sign(v):
@@ -121,6 +120,12 @@ def record_walk(ctx):
 
 
 def stale(ctx):
+    """After a watch handler (user code) ran, every pointer to / into the instance or a watch is stale; it may be used
+    again only when it was assigned a fresh value (read from live memory, e.g. the next lookup) or, for the instance,
+    when the liveness slot that the dispatcher published through `<instance>->term` (the word iv_inotify_unregister
+    nulls) was found non-NULL since (h20.stale_after_handler).  Which local serves as the slot (the instance pointer
+    itself, a dedicated word, a member of a walk context) and how many cached addresses derive from the instance
+    pointer does not matter."""
     prog = ctx.prog
     p = h20.prov(prog)
     g = h20.with_address_copies_resolved(p.g)
@@ -130,7 +135,8 @@ def stale(ctx):
         if k and k[0] == 'callback':
             return k[1]
         return 'inotify_watch' if p.is_watch_handler_call(e) else None
-    reps, objvars, markers = stale_after_callback(g, is_cb)
+    reps, objvars, markers = h20.stale_after_handler(g, is_cb, (INST, WATCH) + tuple(sorted(USER_OBJECT_RECORDS - {INST, WATCH})),
+                                                     (INST, 'term'))
     kinds = sorted(set(objvars.values()))
     if INST not in kinds:
         raise AnalysisBroken('the dispatcher holds no pointer to the instance')
@@ -139,10 +145,12 @@ def stale(ctx):
         e0 = bad[0][0] if bad else None
         vs = sorted(v for v in objvars if objvars[v] == rec)
         ctx.ob('R-C20c', 'stale:%s' % rec, not bad, loc=e0['loc'] if e0 else g.loc,
-               detail=('`%s` is used after a handler ran without re-testing its liveness marker: %s'
-                       % (bad[0][1], ', '.join(sorted({a for _, _, a in bad}))))
-               if bad else 'no use of a struct %s pointer (%s) after a handler without reassignment / marker test (markers: %s)'
-                           % (rec, ', '.join(vs), sorted(markers) or '-'),
+               detail=('`%s` is used after a handler ran, on a path on which the slot published through term (%s) was not found '
+                       'non-NULL since and `%s` was not re-read from live memory: %s'
+                       % (bad[0][1], ', '.join(sorted(markers)) or 'none published', bad[0][1], ', '.join(sorted({a for _, _, a in bad}))))
+               if bad else 'no use of a pointer to / into a struct %s (%s) after a handler without a fresh value or a non-NULL test of '
+                           'the liveness slot published through term (%s)'
+                           % (rec, ', '.join(vs), ', '.join('%s vouching for %s' % (P, '/'.join(v)) for P, v in sorted(markers.items())) or '-'),
                path=path_to(g, e0) if e0 else None, fn=g.q)
     # the published address of the local instance pointer does not outlive the walk
     pubs = [e for e in g.events() if e['ev'] == 'store' and last_member(e['lhs']) == (INST, 'term') and 'rhs' in e
@@ -167,7 +175,7 @@ def stale(ctx):
     calls = [e for e in g.events() if p.is_watch_handler_call(e)]
     ctx.ob('R-C20c', 'walk:term-published-at-handler', bool(calls) and all(pub_in.get((e['_b'], e['_i']), False) for e in calls),
            loc=pubs[0]['loc'], detail='on every path to a watch handler call the instance\'s term points at the dispatcher\'s local '
-                                      'instance pointer (%s)' % ', '.join(sorted(pubvars)), fn=g.q)
+                                      'liveness slot (%s)' % ', '.join(sorted(pubvars)), fn=g.q)
     _, ev_in = forward(g, False, tr, lambda a, b: a or b, edge=edge)
     pts = [(pb, pi) for (pb, pi, _) in exits_of(g)] + [(g.exit, 0)]
     ctx.ob('R-C20c', 'walk:term-reset-when-alive', not any(ev_in.get(pt, False) for pt in pts), loc=pubs[0]['loc'],
@@ -275,6 +283,14 @@ def membership(ctx):
         # registration: at the insert the watch's wd holds what inotify_add_watch returned
         kernel = {n for n, d in defs.items() if isinstance(strip(d['rhs']), dict) and strip(d['rhs']).get('k') == 'call'
                   and strip(d['rhs']).get('callee') == 'inotify_add_watch'}
+        grew = True
+        while grew:             # copies of copies (the result handed through a wrapper's return value and a local)
+            grew = False
+            for n, d in defs.items():
+                v = h20.lvar(d['rhs'])
+                if n not in kernel and v is not None and v['name'] in kernel:
+                    kernel.add(n)
+                    grew = True
 
         def tr(e, st):
             if e['ev'] == 'store' and last_member(e['lhs']) == (WATCH, 'wd'):
@@ -290,6 +306,46 @@ def membership(ctx):
                loc=sites[0]['loc'] if sites else f.loc,
                detail='the watch enters the tree of its own instance (iv_avl_tree_insert(&w->inotify->watches, &w->an)) with w->wd holding '
                       'the descriptor inotify_add_watch returned', fn=f.q)
+
+
+def null_contradiction(ctx):
+    """NULL-CONTRADICTION in iv_inotify.c: a pointer the function itself compares with NULL is not dereferenced on a path
+    on which the NULL edge was taken.  Same obligation as c11.null_rule (generic.null_contradiction on the function as the
+    source spells it, one instance per tested pointer variable), but evaluated after flag partitioning, so that a
+    liveness test stored in a flag (`more = (ino != NULL) && (curr < end); while (more)`) is as path-sensitive as the
+    same test written as a branch."""
+    n = 0
+    for f in sorted(ctx.prog.all_funcs(), key=lambda f: f.q):
+        if not f.file.endswith(('iv_inotify.c',)):
+            continue
+        g = h20.flag_partitioned_source(f)
+        reps, ncand = generic.null_contradiction(g)
+        if not ncand:
+            continue
+        byvar = {}
+        for (e, v, acc) in reps:
+            byvar.setdefault(v, []).append((e, acc))
+        tested = set()
+        for b in g.blocks.values():
+            c = b.term.get('cond') if b.term else None
+            if c is None:
+                continue
+            for pol in (True, False):
+                for (op, lc, rc, l, r) in norm_cond(c, pol):
+                    lv = strip(l)
+                    if op in ('==', '!=') and rc == '0' and isinstance(lv, dict) and lv.get('k') == 'var' \
+                            and lv.get('vk') in ('local', 'param') and '*' in lv.get('type', ''):
+                        tested.add(lv['name'])
+        for v in sorted(tested):
+            bad = byvar.get(v, [])
+            e0 = bad[0][0] if bad else None
+            ctx.ob('R-C20g', '%s:%s' % (f.name, v), not bad, loc=e0['loc'] if e0 else f.loc,
+                   detail=('pointer `%s` is tested against NULL, yet dereferenced on a path where the NULL edge '
+                           'was taken: %s' % (v, ', '.join(sorted({a for _, a in bad})))) if bad else
+                          'tested pointer is never dereferenced on its NULL path',
+                   path=path_to(g, e0) if e0 else None, fn=f.q)
+            n += 1
+    return n
 
 
 def init_complete(ctx):
